@@ -137,4 +137,49 @@ def backoff (fuel : Nat) (r : Nat → α) (p : Params α) : Outcome α :=
   | _ => backoffIter fuel r p
 
 end
+
+/-! ### acceptance of the default count
+
+"with the default count (factor > 1) the last value is stop" fixes the LAST value, not how many
+values there are: once at `stop` the sequence stays there, so an implementation whose default
+count is larger than the minimal one (one more `stop` at the end, say) still satisfies the
+statement.  In the correspondence the driver is told how many values `m` the implementation
+produced for `count=None`; when `m` is at least the model's own (minimal) default count the
+call is judged as the same call with `count=m`, otherwise (too few values: the last one is
+below `stop`) as the model's own default. -/
+section
+variable {α : Type} [LE α] [LT α] [DecidableLE α] [DecidableLT α] [BEq α]
+  [Mul α] [Sub α] [Neg α] [OfNat α 0] [OfNat α 1]
+
+def acceptCount (fuel : Nat) (p : Params α) (m : Nat) : Params α :=
+  match p.count with
+  | .dflt =>
+    match resolveCount fuel p with
+    | .num n => if n ≤ m then { p with count := .num (m : Int) } else p
+    | _ => p
+  | _ => p
+
+end
+
+/-! ### acceptance of jittered values
+
+The statement fixes the un-jittered sequence exactly (one multiplication per step) but a
+jittered value only up to an interval: "every value lies between the un-jittered value b at
+that position and b*(1-j), inclusive".  HOW the implementation draws a point of that interval
+(`cur - cur*jitter*random()`, `cur * (1 - jitter*random())`, …) is left open, so the
+correspondence judges a jittered value by this predicate instead of comparing it bit for bit
+with `emit`.  `tol` is 0 on the exact instance; on doubles the interval ends are themselves only
+defined up to rounding and `tolF` (2⁻⁵⁰ relative + four smallest subnormals, the slack the
+independent oracle uses as well) is allowed. -/
+
+/-- `w` lies between `b` and `b * (1 - j)`, inclusive, with slack `tol` -/
+def jitAccept (tol b j w : Rat) : Bool :=
+  decide (min b (b * (1 - j)) - tol ≤ w) && decide (w ≤ max b (b * (1 - j)) + tol)
+
+def ratAbs (x : Rat) : Rat := if x < 0 then -x else x
+
+/-- the slack allowed on IEEE doubles -/
+def tolF (b j : Rat) : Rat :=
+  max (ratAbs b) (ratAbs (b * (1 - j))) / (2 : Rat) ^ 50 + 1 / (2 : Rat) ^ 1072
+
 end C15
